@@ -479,6 +479,27 @@ pub fn main(args: &Args) {
         patterns.push((0..n).collect());
         patterns.push((0..n).map(|i| i / 2).collect());
     }
+    // distinct keys followed by a repeat of key j: every j for lists of 9..20, selected j beyond
+    for n in 9..=20usize {
+        for j in 0..n - 1 {
+            let mut p: Vec<usize> = (0..n - 1).collect();
+            p.push(j);
+            patterns.push(p);
+        }
+    }
+    for n in [33usize, 65] {
+        for j in [0usize, 7, 8, 15, 16, 31, n - 2] {
+            if j < n - 1 {
+                let mut p: Vec<usize> = (0..n - 1).collect();
+                p.push(j);
+                patterns.push(p);
+                // ... and the repeat in the middle
+                let mut q: Vec<usize> = (0..n - 1).collect();
+                q.insert(n / 2, j);
+                patterns.push(q);
+            }
+        }
+    }
     let n_patterns = patterns.len();
     let tl = insts
         .par_iter()
@@ -487,7 +508,14 @@ pub fn main(args: &Args) {
             let mut t = Tally::default();
             let twin = twin_of(inst).map(|i| &insts[i]);
             let n = pat.len();
-            let masks: Vec<u128> = if n <= 8 { (0..(1u128 << n)).collect() } else { (0..n as u32).map(|i| 1u128 << i).chain([0]).collect() };
+            let masks: Vec<u128> = if n <= 8 {
+                (0..(1u128 << n)).collect()
+            } else if pat.iter().collect::<std::collections::BTreeSet<_>>().len() + 1 == n && n > 12 {
+                // distinct-plus-one-repeat patterns: all good, first bad, last bad
+                vec![0, 1, 1u128 << (n - 1)]
+            } else {
+                (0..n as u32).map(|i| 1u128 << i).chain([0]).collect()
+            };
             for mask in masks {
                 let text: Vec<String> = pat
                     .iter()
